@@ -6,6 +6,7 @@ from units import loop_common as L
 def build(S: Sources) -> Unit:
     errs = []
     vfiles = guarded(lambda: L.loop_files(S, "c19", L.TAGS["C19"], ("C19" == "C19"), errs), errs, [])
+    vfiles = vfiles + guarded(lambda: clear_counts_files(S), errs, [])
     return Unit(
         property_id="C19",
         verus=vfiles,
@@ -17,5 +18,47 @@ def build(S: Sources) -> Unit:
 
 
 EXTRA_UNDECIDED = [
-    "the discarded rounds' counter data (CounterCollection::clear_input_counts is opaque here); their timing and allocation data are covered by SampleCollection::clear's contract",
+    "that the loop's stand-in for CounterCollection::clear_input_counts (counter_rows == 0, uninterpreted) is what the function's own contract (every input-fed kind's counts emptied) means is not connected formally",
 ]
+
+
+# --------------------------------------------------------------------------- CounterCollection::clear_input_counts (Verus)
+COLL = "src/counter/collection.rs"
+ANYC = "src/counter/any_counter.rs"
+
+CLEAR_LOOP = """let mut ki: usize = 0;
+        while ki < 4
+            invariant 0 <= ki <= 4,
+                forall |k: int| 0 <= k < 4 ==> (#[trigger] self.info@[k]).count_input == old(self).info@[k].count_input,
+                forall |k: int| 0 <= k < ki ==> (#[trigger] self.info@[k]).counts@ == (if old(self).info@[k].count_input is Some { Seq::<MaxCountUInt>::empty() } else { old(self).info@[k].counts@ }),
+                forall |k: int| ki <= k < 4 ==> (#[trigger] self.info@[k]).counts@ == old(self).info@[k].counts@,
+            decreases 4 - ki,
+        {
+            let info = &mut self.info[ki]; ki = ki + 1;"""
+
+
+def clear_counts_files(S: Sources):
+    """CounterCollection::clear_input_counts (called when a tuning round is discarded): the per-sample counts of EVERY counter
+    kind that is fed by an input counter are dropped, constant counters keep their one value, the input counters stay."""
+    import copy
+    cl = S(COLL); ac = S(ANYC)
+    secs = [ghost("aliases and stand-in", "pub type MaxCountUInt = u64;      // condtype::num::Usize64 on a 64-bit target\n"
+                  "// the boxed, type-erased input counter closure: opaque\n#[verifier::external_body] pub struct InputCounterFn { _p: core::marker::PhantomData<()> }", kind="glue"),
+            code_item(ac, ac.find_item("enum", "KnownCounterKind"), keep_attrs=("derive",),
+                      subst=[(r"#\[derive\([^\]]*\)\]", "#[derive(Clone, Copy, PartialEq, Eq)]", 1)])]
+    secs += wrap_impl("impl KnownCounterKind", [code_item(ac, ac.find_item("const", "COUNT"))])
+    secs.append(code_item(cl, cl.find_item("struct", "KnownCounterInfo"), keep_attrs=(),
+                          subst=[(r"Option\s*<\s*Box\s*<\s*dyn\s+Fn\s*\(\s*\*const\s*\(\s*\)\s*\)\s*->\s*MaxCountUInt\s*\+\s*Sync\s*>\s*>", "Option<InputCounterFn>", 1),
+                                 (r"\bcounts\s*:", "pub counts:", 1), (r"\bcount_input\s*:", "pub count_input:", 1)]))
+    secs.append(code_item(cl, cl.find_item("struct", "CounterCollection"), keep_attrs=(), subst=[(r"\binfo\s*:", "pub info:", 1)]))
+    f = cl.find_fn("clear_input_counts", impl=r"impl CounterCollection\b")
+    sec = code_fn(cl, f, "CounterCollection::clear_input_counts",
+                  # `for info in &mut self.info` is accepted by this Verus but its generated invariant does not hold: index loop over the same array (header only)
+                  subst=[(r"for\s+info\s+in\s+&\s*mut\s+self\s*\.\s*info\s*\{", CLEAR_LOOP, 1)],
+                  clauses="""
+        ensures forall |k: int| 0 <= k < 4 ==> (#[trigger] final(self).info@[k]).count_input == old(self).info@[k].count_input
+            && final(self).info@[k].counts@ == (if old(self).info@[k].count_input is Some { Seq::<MaxCountUInt>::empty() } else { old(self).info@[k].counts@ }),
+    """)
+    secs += wrap_impl("impl CounterCollection", [sec])
+    csecs = copy.deepcopy(secs) + [ghost("canaries", "pub fn canary_clear_counts(c: &mut CounterCollection) { c.clear_input_counts(); assert(false); }", kind="lemma")]
+    return [VerusFile("c19_clear_counts", secs), VerusFile("c19_clear_counts_canary", csecs, expect_fail=True)]
